@@ -157,9 +157,15 @@ def _case(rng, fc=None):
     upd_params = bool(ups) and rng.random() < 0.45
     if fc["t"] == "stack":
         fh = list(range(1, rng.randint(2, 4)))     # stacking trains on a hold-out window of len(fh)
+    fh_kind = rng.choice(["rel", "rel", "abs"])
+    if fh_kind == "abs" and fh_at != "predict":
+        # an absolute horizon is built from the FINAL cutoff; seen from the fit cutoff it is
+        # sum(updates) steps further away, and forecasters that train per step at fit (direct /
+        # dirrec / multioutput reductions, stacking) need that many more training points
+        n += sum(ups)
     return {"kind": "run", "fc": fc, "n": n, "t0": rng.choice([0, 0, 1, 3, 7, 25, 100, -6]),
             "idx": rng.choice(["range", "int"]), "seed": rng.randint(0, 10 ** 6), "fh": fh,
-            "fh_kind": rng.choice(["rel", "rel", "abs"]), "fh_at": fh_at, "updates": ups,
+            "fh_kind": fh_kind, "fh_at": fh_at, "updates": ups,
             "update_params": upd_params, "k": rng.choice([1, 2, 5, 13, -3, 40])}
 
 
@@ -647,6 +653,10 @@ def distribution(cases, results):
             d["fh:gapped"] += 1
         if 0 in c["updates"]:
             d["updates:has-empty-batch"] += 1
+        if c["update_params"] and c["fh_at"] == "predict":
+            d["updates:refit-before-any-horizon"] += 1
+        if documented_rejection(c):
+            d["naive:documented-rejection-at-fit"] += 1
         if "err" in o:
             d["raised:%s" % o.get("stage")] += 1
     return dict(d)
